@@ -97,6 +97,17 @@ def do_check(spec):
     api.TWIN = spec.get('twin')
     api.REACHED.clear()
 
+    if getattr(ob, 'custom', False):
+        t0 = time.time()
+        c0 = time.process_time()
+        res = fn(tier=spec.get('tier', 'quick'), replay=None,
+                 **(spec.get('shape') or {}))
+        res.setdefault('paths', res.get('queries', 0))
+        res.setdefault('reached', {'main': res.get('queries', 0)})
+        res['wall_s'] = round(time.time() - t0, 3)
+        res['cpu_s']  = round(time.process_time() - c0, 3)
+        return res
+
     gen_dir = spec['gen_dir']
     os.makedirs(gen_dir, exist_ok=True)
     src   = gen_wrapper_src(spec, ob)
@@ -185,7 +196,12 @@ def do_replay(spec):
     res  = {'raised': False}
     sys.setprofile(prof)
     try:
-        fn(*[args[p] for p in ob.params.keys()], **(spec.get('shape') or {}))
+        if getattr(ob, 'custom', False):
+            fn(tier=spec.get('tier', 'quick'), replay=args,
+               **(spec.get('shape') or {}))
+        else:
+            fn(*[args[p] for p in ob.params.keys()],
+               **(spec.get('shape') or {}))
     except Exception as e:
         sys.setprofile(None)
         res['raised']   = True
